@@ -8,8 +8,7 @@
 (*                           sub-table does not have that column)             *)
 EXTENDS Compress, TLC, Json, Randomization
 
-CONSTANTS Shapes1, Shapes2, Shapes3, RSet1, RSet2, RSet3,   \* exhaustive generator bounds
-          NCases
+CONSTANTS NCases
 
 VARIABLES cols,     \* cols[e][s] = set of payload column ids of the sub-table
           c
@@ -48,10 +47,8 @@ Rest ==
   /\ found = EmptyFn /\ out = <<>>
 
 ---------------------------------------------------------------------------
-\* exhaustive: every shape list and every selection within bounds that depend on the number of
-\* Einsums (Shapes1 for one Einsum, Shapes2 for two, Shapes3 for three; same for result rows)
-ShapesE(ne) == IF ne = 1 THEN Shapes1 ELSE IF ne = 2 THEN Shapes2 ELSE Shapes3
-RSetE(ne)   == IF ne = 1 THEN RSet1 ELSE IF ne = 2 THEN RSet2 ELSE RSet3
+\* exhaustive: every shape list and every selection within the bounds of the cfg (Shapes1 for
+\* one Einsum, Shapes2 for two, Shapes3 for three; same for the number of result rows)
 ExhInit ==
   /\ \E ne \in ESet : shape \in [1 .. ne -> ShapesE(ne)]
   /\ ShapeOK(shape)
